@@ -26,7 +26,7 @@ def s_case(draw):
             "off": draw(st.one_of(st.just(0.0), st.floats(-1, 1), st.floats(-10, 10), st.floats(-10, 10), st.floats(-1e3, 1e3), st.floats(-1e6, 1e6))), "bw": draw(st.floats(0.75, 1.5)), "sig": draw(st.floats(0.005, 0.05)),
             "loga": draw(st.floats(-3, 3)), "beta": draw(st.one_of(st.floats(-10, 10), st.floats(-10, 10), st.floats(-1e3, 1e3), st.floats(-1e6, 1e6))),
             "prior": draw(st.sampled_from([None, None, 32, 64])), "seed": draw(st.integers(0, 2 ** 31 - 1)), "p1": draw(st.floats(0.35, 0.65)),
-            "form": draw(st.sampled_from(["es", "es_noise", "array"]))}
+            "form": draw(st.sampled_from(["es", "es_noise", "array", "array", "complex"])), "resamp_np": draw(st.booleans())}
 
 
 def make_wave(c):
@@ -48,9 +48,9 @@ def make_wave(c):
     return bits, a, d, filt, noise
 
 
-def get_eye(arg, seed):
+def get_eye(arg, seed, resamp=128):
     np.random.seed(seed % 2 ** 32)
-    return lib(D.GET_EYE, arg, 4096, 128)
+    return lib(D.GET_EYE, arg, 4096, resamp)
 
 
 FIELDS = ("mu0", "mu1", "s0", "s1", "threshold", "t_left", "t_right", "t_opt")
@@ -64,10 +64,15 @@ def e_case(c):
     b = a + d
     sigma = c["sig"] * d
     total = filt + noise
+    # sps_resamp = 128 as a Python int or as the numpy integer an array of settings yields
+    resamp = np.int64(128) if c.get("resamp_np") else 128
     if c["form"] == "es":
         arg = electrical_signal(total.copy())
     elif c["form"] == "es_noise":
         arg = electrical_signal(filt.copy(), noise.copy())
+    elif c["form"] == "complex":
+        # a real waveform that went through an FFT round trip and was not reduced with .real: complex dtype, imaginary part = rounding residue
+        arg = np.fft.ifft(np.fft.fft(total))
     else:
         arg = total.copy()
     g = Guard()
@@ -87,7 +92,7 @@ def e_case(c):
         lib(D.GET_EYE, w0)
         gv(sps=sps, R=1e9)
         prior = f"prior-record-same-size-sps{sp0}"
-    e = get_eye(arg, c["seed"])
+    e = get_eye(arg, c["seed"], resamp)
     g.verify()
     g.release()
     ctx = f"d={d:.4g} V a={a:.4g} sps={sps} slots={c['nslots']} sigma={c['sig'] * 100:.1f}% bw={c['bw']:.2f}R"
@@ -111,9 +116,11 @@ def e_case(c):
         arg2 = electrical_signal(al * filt + be, al * noise)
     elif c["form"] == "es":
         arg2 = electrical_signal(al * total + be)
+    elif c["form"] == "complex":
+        arg2 = np.fft.ifft(np.fft.fft(al * total + be))
     else:
         arg2 = al * total + be
-    e2 = get_eye(arg2, c["seed"])
+    e2 = get_eye(arg2, c["seed"], resamp)
     for k in FIELDS:
         v = getattr(e2, k, None)
         check(v is not None and np.isfinite(v), "eye-field-not-finite", f"scaled: {k}={v} (alpha={al:.3g} beta={be:.3g}; {ctx})")
@@ -127,7 +134,8 @@ def e_case(c):
     nt = not (0.1 <= d <= 2) or abs(a) > d
     return {"nontrivial": bool(nt), "classes": [c["pattern"], f"sps{sps}", "d<0.1" if d < 0.1 else "d<=2" if d <= 2 else "d<=10" if d <= 10 else "d>10",
                                                  "offset>1000d" if abs(a) > 1000 * d else "offset>d" if abs(a) > d else "offset<=d", c["form"], prior,
-                                                 "beta>1000d" if abs(c["beta"]) > 1000 else "beta<=1000d"]}
+                                                 "beta>1000d" if abs(c["beta"]) > 1000 else "beta<=1000d",
+                                                 "sps_resamp:np.int64" if c.get("resamp_np") else "sps_resamp:int"]}
 
 
 def classify(part, case, v):
